@@ -371,6 +371,9 @@ pub enum WOp {
     Write(usize),
     Empty,
     Flush,
+    /// the caller does something else between two calls: a scheduling point at which switching away is free
+    /// (models a slow producer / consumer)
+    Yield,
 }
 
 #[derive(Clone, Debug)]
@@ -419,6 +422,7 @@ impl Scenario {
                 WOp::Write(n) => format!("w{n}"),
                 WOp::Empty => "e".into(),
                 WOp::Flush => "f".into(),
+                WOp::Yield => "y".into(),
             })
             .collect::<Vec<_>>()
             .join(".");
@@ -490,8 +494,13 @@ fn run_reader<R: Read>(s: &Scenario, mut r: R, count: impl Fn(&R) -> u64) {
     let mut buf = vec![0u8; s.bufsize];
     let mut calls = 0usize;
     let mut result: Option<Result<Vec<u8>, String>> = None;
+    let slow = s.name.ends_with("/slow-consumer");
     while calls < s.drop_after {
         calls += 1;
+        if slow && calls > 1 {
+            // the caller does something else between two reads (free scheduling point)
+            shuttle::thread::yield_now();
+        }
         obs_phase(format!("read#{calls}"));
         match r.read(&mut buf) {
             Ok(0) => {
@@ -570,6 +579,11 @@ fn run_writer<W: Write>(s: &Scenario, mut w: W, finish: impl FnOnce(W) -> io::Re
             WOp::Flush => {
                 obs_phase(format!("flush#{calls}"));
                 w.flush()
+            }
+            WOp::Yield => {
+                obs_phase(format!("yield#{calls}"));
+                shuttle::thread::yield_now();
+                Ok(())
             }
         };
         match r {
